@@ -323,6 +323,31 @@ def _make_thermo_2c(params, TnFrac, tminFrac, tmaxFrac, rTol, Tscale, ck):
     return _cache[ck]
 
 
+def twostep_eos(abrok=0.2, asym=0.1, musq=0.4, Tn=0.7, Tmax=5.0):
+    """Closed-form polynomial two-step equation of state (toy xSM of 2004.06995): a real WallGo.Thermodynamics
+    subclass whose p, dp, ddp are overridden (e, w, csq, alpha are the library's own).  Sound speeds depend on T."""
+    from types import SimpleNamespace
+    from WallGo.thermodynamics import Thermodynamics
+
+    class TwoStep(Thermodynamics):
+        def __init__(self):
+            self.aLowT, self.aHighT, self.musq, self.Tnucl = abrok, asym, musq, Tn
+            self.freeEnergyHigh = SimpleNamespace(minPossibleTemperature=[0.01, False], maxPossibleTemperature=[Tmax, False])
+            self.freeEnergyLow = SimpleNamespace(minPossibleTemperature=[0.01, False], maxPossibleTemperature=[Tmax, False])
+            self.TMinLowT = self.TMinHighT = 0.01
+            self.TMaxLowT = self.TMaxHighT = Tmax
+
+        def pHighT(self, T): return T ** 4 + (self.aLowT - self.aHighT + self.aHighT * T ** 2 - self.musq) ** 2 - self.musq ** 2
+        def dpHighT(self, T): return 4 * T ** 3 + 4 * self.aHighT * T * (self.aLowT - self.aHighT + self.aHighT * T ** 2 - self.musq)
+        def ddpHighT(self, T): return 12 * T ** 2 + 8 * self.aHighT ** 2 * T ** 2 + 4 * self.aHighT * (self.aLowT - self.aHighT + self.aHighT * T ** 2 - self.musq)
+        def pLowT(self, T): return T ** 4 + (self.aLowT * T ** 2 - self.musq) ** 2 - self.musq ** 2
+        def dpLowT(self, T): return 4 * T ** 3 + 4 * self.aLowT * T * (self.aLowT * T ** 2 - self.musq)
+        def ddpLowT(self, T): return 12 * T ** 2 + 8 * self.aLowT ** 2 * T ** 2 + 4 * self.aLowT * (self.aLowT * T ** 2 - self.musq)
+        def csqHighT(self, T): return self.dpHighT(T) / self.deHighT(T)
+        def csqLowT(self, T): return self.dpLowT(T) / self.deLowT(T)
+    return TwoStep()
+
+
 class BagEOS:
     """Duck-typed stand-in for Thermodynamics with a closed-form template/bag equation of state:
     p_+ = a_+ T^mu/3 - eps, p_- = a_- T^nu/3.  Used to drive the real Hydrodynamics classes."""
